@@ -93,6 +93,29 @@ CLAIMS = {
         "on the real streams (must re-encode byte-identically) and compared with the real loader at cut offsets; loaded instances vs model vs reference semantics.",
         note="Map iteration order is stream order in the model. Removed rules are not stored (C16). Fixes a04190d (EOF is an error) and 72ac919 in /repo.",
         tech="Lean 4 prefix-code proof over decoder combinators + regenerated wire schemas (decide tie) + byte-level correspondence", ref="5.C12"),
+ "C05": dict(text="Lean theorems over the canonical operator tables (proved equal by decide to the tables regenerated from pkg/reflectmath.go on every run): "
+        "C05_int_arith / _exact (64-bit Go arithmetic, exact when the result fits), C05_div_real (/ is the real quotient), C05_promotion, C05_concat, C05_int_mod, "
+        "C05_bitops, C05_logic, C05_ill_typed; over the from-scratch semantics the engine refines: C05_and/or_short_circuit, C05_parens, C05_neg_atom, "
+        "C05_args_in_order, C05_method_gets_args; C05_keyword_case. Grouping: the model's precedence-climbing parser is tied by decide to the generated "
+        "parser's precedence predicates, the grammar's operator rules and the published table (T2, C05_precedence_tied). Tie of lexer/parser/listener to "
+        "the model: correspondence on re-rendered texts (all literal notations, spacing, comments, keyword case, redundant parentheses) with exact snapshot "
+        "strings, three-way grouping check on flat operator chains, all-operator grid on pkg.Evaluate*.",
+        note="The round-trip theorem parse(print e) = e for every tree is not proved yet (stated in DESIGN.md as staged); grouping for all texts rests on the "
+        "regenerated precedence facts plus the correspondence. ParseFloat/FormatFloat are modelled (exact rational arithmetic) and validated, not verified. "
+        "Fix 82ab5bc corrected the published table (& binds like + - |).",
+        tech="Lean 4 theorems over regenerated operator tables + regenerated syntax facts (decide ties) + differential correspondence of the front end", ref="5.C05"),
+ "C17": dict(text="Lean model of the whole front end (Syntax/Lexer: every lexer rule, maximal munch, first rule wins, runtime recovery; Syntax/Parser: the "
+        "parser rules as recursive descent building the listener's AST; Syntax/Literal: ParseInt base 0, ParseFloat, unquoteString; Syntax/Front: verdict) and "
+        "of BuildRuleFromResource (KB.buildText). Theorems: C17_accepted_all_present (an accepted text with distinct fresh names yields no error and every rule "
+        "is in the knowledge base under its name with its description, salience, condition, actions), C17_rejected_harmless / _same_instances (a rejected text "
+        "yields an error and leaves entries, working memory, instances and stored stream exactly as before), C17_existing_rules_stay, accepted_means. The "
+        "recogniser is the independent oracle of the check: accept/reject and error channel (lexer/parser) of the real builder vs the model on generated valid "
+        "documents and their token/character mutations; monitors for the three sentences on the real builder; lexer rule order, token texts, identifier "
+        "ranges tied by decide to facts regenerated from antlr/grulev3.g4.",
+        note="What runs in /repo is the generated ANTLR lexer/parser (serialized ATN), not the grammar file: their agreement with the model is differential "
+        "validation. Soundness/completeness of the recursive-descent recogniser w.r.t. a declarative derivation relation is not proved. Fixes 3cd0826 (a "
+        "rejected resource adds no rule) and 2e94e10 (salience out of range is an error, not a panic) in /repo.",
+        tech="Lean 4 executable front-end model + theorems on the builder's effect + regenerated lexer facts (decide ties) + mutation-based differential correspondence", ref="5.C17"),
 }
 
 def main():
@@ -121,7 +144,7 @@ def main():
          "engines": [
              {"name": "lean-model", "path": "lean/", "serves_properties": [c["property_id"] for c in checks],
               "kind_free_text": "Lean 4 model (Impl + Spec), theorems in lean/GruleModel/Properties, helper proofs in lean/GruleModel/Proofs"},
-             {"name": "extractors", "path": "tools/extract/", "serves_properties": ["C04", "C05", "C19"],
+             {"name": "extractors", "path": "tools/extract/", "serves_properties": ["C04", "C05", "C12", "C17", "C19"],
               "kind_free_text": "go/ast translators regenerating lean/GruleModel/Gen/*.lean from /repo on every run"},
              {"name": "harness", "path": "harness/", "serves_properties": [c["property_id"] for c in checks],
               "kind_free_text": "Go harness running scenarios on the real engine in-process; run/*.py generate, canonicalise, diff"}],
